@@ -157,3 +157,15 @@ Print Assumptions C10_sorted_sites_present.
 Theorem C10_no_module_state : forall m, In m module_state -> m_mutated m = true -> m_name m = hook_log.
 Proof. exact no_module_state. Qed.
 Print Assumptions C10_no_module_state.
+
+(* the only modules imported (anywhere) by parser.py / emitter.py / ast.py are pure helpers - no time, random, os, uuid ... -
+   except `os` inside the verification hook, which reads its REDUINO_VERIF switch *)
+Theorem C10_imports_are_pure : forall i, In i imports ->
+  In (i_module i) allowed_modules \/ (i_module i = txt "os"%string /\ i_fn i = hook_fn).
+Proof. exact imports_accounted. Qed.
+Print Assumptions C10_imports_are_pure.
+
+(* no use of hash / id / open / input / eval / exec / globals / object() ... in the three files *)
+Theorem C10_no_ambient_builtins : ambient_calls = [].
+Proof. exact no_ambient_calls. Qed.
+Print Assumptions C10_no_ambient_builtins.
